@@ -46,7 +46,7 @@ def input_type(i):
 def field_type(f):
     for cls, n in ((hb_fields.FloatField, 'float'), (hb_fields.IntegerField, 'int'), (hb_fields.BooleanField, 'bool'),
                    (hb_fields.StringField, 'str'), (hb_fields.EnumField, 'enum')):
-        if type(f) is cls:
+        if isinstance(f, cls):        # a subclass of FloatField still declares a money/decimal line
             return n
     return 'other:' + type(f).__name__
 
@@ -226,7 +226,15 @@ def make_persona(year, seed, archetype=None):
         over['1099-r:0.box_2a'] = str(rng.pick([0, 5000]))
         over['1099-r:0.box_7_ira_sep_simple'] = 'yes'
         over['1099-r:0.belongs_to'] = 'taxpayer'
-        over['1040.ira_exception2_you'] = rng.pick(['yes', 'no'])
+        over['1040.ira_exception2_you'] = rng.pick(['yes', 'yes', 'no'])
+        if rng.chance(0.6):
+            # Form 8606 part I with a basis ratio that does not terminate within 5 decimals
+            over['8606:you.part_1_needed'] = 'yes'
+            over['8606:you.distribution_or_roth_conversion'] = 'yes'
+            over['8606:you.nondeductible_contributions'] = str(rng.pick([1000, 2000, 3500]))
+            over['8606:you.traditional_basis'] = str(rng.pick([0, 1000, 4000]))
+            over['8606:you.year_end_value_non_roth'] = str(rng.pick([7000, 11000, 23000]))
+            over[f'8606:you.distributions_{year}'] = over['1099-r:0.box_1']
     elif arch == 'high_earner':
         wages = rng.pick([230000, 310000.75])
         status = rng.pick(['Single', 'MarriedFilingJointly'])
@@ -357,7 +365,7 @@ class ShippedRun(simrun.RealRun):
 
 
 def execute(pdict, file_names=(), sched=(None, 0), prompt=True, refuse_at=None, layout=None, budget=40000,
-            cpu_s=30.0, requested=None, overrides=None):
+            cpu_s=30.0, requested=None, overrides=None, store=None):
     """One session of the simulated taxpayer against the real forms of pdict['year'].
     file_names: inputs pre-supplied in the file (texts from the persona)."""
     persona = Persona(pdict)
@@ -365,11 +373,14 @@ def execute(pdict, file_names=(), sched=(None, 0), prompt=True, refuse_at=None, 
         persona.over = dict(persona.over, **overrides)
     year = pdict['year']
     from . import gen
-    items = [(n, persona.text(n)) for n in file_names]
-    path = os.path.join(simrun.scratch_dir(), 'ship_in.ini')
-    with open(path, 'w', newline='') as f:
-        f.write(gen.file_text(items, layout=layout))
-    store = hb_inputs.InputStore(path)
+    if store is None:
+        items = [(n, persona.text(n)) for n in file_names]
+        path = os.path.join(simrun.scratch_dir(), 'ship_in.ini')
+        with open(path, 'w', newline='') as f:
+            f.write(gen.file_text(items, layout=layout))
+        store = hb_inputs.InputStore(path)
+    else:
+        file_names = sorted(f'{sec}.{k}' for sec, k in simrun.config_items(store.config))
     m = mon.Monitor(supplied=file_names)
     rec = seams.Recorder(budget=budget, sched_seed=sched[0], period=sched[1], monitor=m)
 
@@ -402,6 +413,7 @@ def execute(pdict, file_names=(), sched=(None, 0), prompt=True, refuse_at=None, 
     run.supplied = sorted(set(file_names) | set(m.answered))
     run.config_items = simrun.config_items(store.config)
     run.input_texts = {f'{sec}.{k}': v for (sec, k), v in run.config_items.items()}
+    run.store = store
     return run
 
 
